@@ -87,6 +87,9 @@ class Report(object):
         self.exhaustive = None
         self.known_lines = []
         self.required_classes = []
+        # bulk enumerations (millions of distinct cells) are counted, not stored as keys
+        self.bulk_distinct = 0
+        self.bulk_nontrivial = 0
 
     # -- accumulation --------------------------------------------------------------------
     def add_case(self, key, nontrivial, classes=(), sample=None):
@@ -98,6 +101,14 @@ class Report(object):
             self.classes[c] += 1
         if sample is not None and len(self.samples) < 8:
             self.samples.append(sample)
+
+    def add_bulk(self, n, n_nontrivial, classes=None):
+        """n distinct enumerated cells of which n_nontrivial are non-trivial"""
+        self.evaluations += n
+        self.bulk_distinct += n
+        self.bulk_nontrivial += n_nontrivial
+        for c, k in (classes or {}).items():
+            self.classes[c] += k
 
     def add_failure(self, clause, detail, case=None, choices=None, stage=''):
         self.failure_counts[clause] += 1
@@ -160,15 +171,15 @@ class Report(object):
                 return 2
         print('%s %s tier=%s seed=%d evaluations=%d distinct_nontrivial=%d violations=%d wall=%.1fs' % (
             'FAIL' if violations else 'ok', self.pid, self.tier, self.seed, self.evaluations,
-            len(self.nontrivial), violations, time.time() - self.t0))
+            len(self.nontrivial) + self.bulk_nontrivial, violations, time.time() - self.t0))
         return 1 if violations else 0
 
     def write_evidence(self, violations):
         os.makedirs(EVIDENCE_DIR, exist_ok=True)
         cov = {
             'evaluations': self.evaluations,
-            'distinct_nontrivial': len(self.nontrivial),
-            'distinct': len(self.keys),
+            'distinct_nontrivial': len(self.nontrivial) + self.bulk_nontrivial,
+            'distinct': len(self.keys) + self.bulk_distinct,
             'rule': self.rule,
             'samples': jsonable(self.samples),
             'classes': dict(sorted(self.classes.items())),
